@@ -2660,7 +2660,7 @@ class sptensor:
             #  call it twice
             nzsubsIdx = tt_intersect_rows(self.subs, other.subs)
             nzsubs = self.subs[nzsubsIdx]
-            iother = tt_intersect_rows(other.subs, self.subs)
+            _, iother = tt_ismember_rows(nzsubs, other.subs)
             equal_subs = self.vals[nzsubsIdx] == other.vals[iother]
             znzsubs = np.empty(shape=(0, other.ndims), dtype=int)
             if equal_subs.size > 0:
@@ -2972,7 +2972,8 @@ class sptensor:
 
         if isinstance(other, ttb.sptensor):
             idxSelf = tt_intersect_rows(self.subs, other.subs)
-            idxOther = tt_intersect_rows(other.subs, self.subs)
+            # locate each common subscript in other (do not pair two index lists by position)
+            _, idxOther = tt_ismember_rows(self.subs[idxSelf], other.subs)
             return ttb.sptensor(
                 self.subs[idxSelf],
                 self.vals[idxSelf] * other.vals[idxOther],
